@@ -15,22 +15,27 @@ Definition model_text (c : pcfg) (x : obj) : option (list byte) :=
 Definition model_read (t : option (list byte)) : option (list obj) :=
   match t with Some bs => read_all bs | None => None end.
 
-(* 0 ok.
-   1: the model differs from the implementation (printed text, or what is read from the implementation's
-      text) but the implementation's round trip is fine, or fails only where the model's also fails outside the guard.
-   2: the model differs AND the implementation's read-back is not an equal object of the same type although
-      the pair is inside the guard, or the model (the unchanged code) did carry this pair round: a failing input.
-   3: self-check: model = implementation, the pair is inside the guard, and the round trip fails: the
-      theorem would be false. *)
+(* What is compared is what the property constrains: the OBJECTS a text denotes, not its spelling.
+   agree_reader: the model reader and slip.Read make the same objects of the implementation's text.
+   agree_printer: the implementation's text and the model's text denote the same objects (a change of layout,
+   of letter case in a prefix, an extra escape ... that reads back alike is not a disagreement).
+   0 ok.
+   1: the model differs from the implementation but the implementation's round trip is fine, or fails only
+      outside the guard where the model's fails too.
+   2: the model differs AND the object the implementation reads back is not an equal object of the same type
+      although the pair is inside the guard, or the model (the unchanged code) did carry this pair round: a failing input.
+   3: self-check: model = implementation, the pair is inside the guard, and the round trip fails (excluded by
+      theorem C03_model_meets_spec_in_guard). *)
 Definition check_case (k : case) : N :=
   let c := k_cfg k in let x := k_obj k in
-  let mt := model_text c x in
-  let agree_print := opt_bytes_eqb mt (k_text k) in
-  let agree_read := read_eqb (model_read (k_text k)) (k_read k) in
+  let mr_model := model_read (model_text c x) in
+  let mr_impl_text := model_read (k_text k) in
+  let agree_reader := read_eqb mr_impl_text (k_read k) in
+  let agree_printer := read_eqb mr_model mr_impl_text in
   let impl_ok := roundtrip_ok x (k_read k) in
-  let model_ok := roundtrip_ok x (model_read mt) in
+  let model_ok := roundtrip_ok x mr_model in
   let g := in_domain c x in
-  if agree_print && agree_read then (if g && negb impl_ok then 3%N else 0%N)
+  if agree_reader && agree_printer then (if g && negb impl_ok then 3%N else 0%N)
   else if negb impl_ok && (g || model_ok) then 2%N else 1%N.
 
 Fixpoint check_all_from (i : N) (cs : list case) : list (N * N) :=
@@ -44,3 +49,6 @@ Definition guard_count (cs : list case) : N :=
   N.of_nat (length (filter (fun k => in_domain (k_cfg k) (k_obj k)) cs)).
 Definition outside_failures (cs : list case) : N :=
   N.of_nat (length (filter (fun k => negb (in_domain (k_cfg k) (k_obj k)) && negb (roundtrip_ok (k_obj k) (k_read k))) cs)).
+(* informational: texts that differ from the model's byte for byte while denoting the same objects *)
+Definition text_differences (cs : list case) : N :=
+  N.of_nat (length (filter (fun k => negb (opt_bytes_eqb (model_text (k_cfg k) (k_obj k)) (k_text k))) cs)).
